@@ -2,13 +2,16 @@ package props
 
 import (
 	"fmt"
+	"regexp"
 	"sort"
 	"strings"
+	"sync"
 
 	"github.com/llir/llvm/asm"
 	"github.com/llir/llvm/vexport"
 
 	"verif/fw"
+	"verif/gen"
 )
 
 func init() { Registry["C20"] = Prop{Run: runC20, Replay: replayC20} }
@@ -203,6 +206,122 @@ func runC20(c *fw.Check) {
 	}
 	// 4. permutations of top-level definitions.
 	c20modules(c, maxDefs)
+	// 5. rotations / reversal / adjacent swaps of the fragments of generated modules.
+	c20generated(c)
+}
+
+var (
+	reC20global = regexp.MustCompile(`(?m)^(@[^ ]+|@"[^"]*") = .*\b(global|constant)\b`)
+	reC20alias  = regexp.MustCompile(`(?m)^(@[^ ]+|@"[^"]*") = .*\balias\b`)
+	reC20ifunc  = regexp.MustCompile(`(?m)^(@[^ ]+|@"[^"]*") = .*\bifunc\b`)
+	reC20func   = regexp.MustCompile(`(?m)^(?:define|declare)[^@\n]*(@[^ (]+|@"[^"]*")\(`)
+)
+
+// c20order extracts the textual order of globals, aliases, ifuncs and functions of a module text.
+func c20order(text string) string {
+	var b strings.Builder
+	for _, re := range []*regexp.Regexp{reC20global, reC20alias, reC20ifunc, reC20func} {
+		for _, m := range re.FindAllStringSubmatch(text, -1) {
+			b.WriteString(strings.Trim(m[1], `"`) + " ")
+		}
+		b.WriteString("| ")
+	}
+	return b.String()
+}
+
+// c20sorted returns the lines of the sections the printer sorts (types, comdats, attribute groups,
+// named metadata, metadata), in the order printed.
+func c20sorted(text string) string {
+	var out []string
+	for _, l := range strings.Split(text, "\n") {
+		if strings.HasPrefix(l, "%") && strings.Contains(l, " = type ") || strings.HasPrefix(l, "$") || strings.HasPrefix(l, "attributes #") || strings.HasPrefix(l, "!") {
+			if strings.HasPrefix(l, "!") && len(l) > 1 && !(l[1] >= '0' && l[1] <= '9') {
+				// named metadata defined several times is merged in TEXTUAL order by design: only
+				// the position of the line and the set of operands are order-independent.
+				if i := strings.Index(l, "= !{"); i >= 0 && strings.HasSuffix(l, "}") {
+					ops := strings.Split(l[i+4:len(l)-1], ", ")
+					sort.Strings(ops)
+					l = l[:i+4] + strings.Join(ops, ", ") + "}"
+				}
+			}
+			out = append(out, l)
+		}
+	}
+	return strings.Join(out, "\n")
+}
+
+func c20generated(c *fw.Check) {
+	bound := 0
+	if !c.Quick() {
+		bound = 1
+	}
+	var vs []gen.Variant
+	for i, e := range gen.Catalogue() {
+		for _, v := range gen.Variants(e, i, bound) {
+			if v.Solo {
+				continue
+			}
+			if _, errs, pan := parseTry(gen.Module([]gen.Variant{v})); errs == "" && pan == "" {
+				vs = append(vs, v)
+			}
+		}
+	}
+	const batch = 24
+	nb := (len(vs) + batch - 1) / batch
+	n := 0
+	var mu sync.Mutex
+	fw.ParallelFor(nb, func(bi int) {
+		lo, hi := bi*batch, (bi+1)*batch
+		if hi > len(vs) {
+			hi = len(vs)
+		}
+		base := vs[lo:hi]
+		m0, errs, pan := parseTry(gen.Module(base))
+		if errs != "" || pan != "" {
+			return
+		}
+		ref := m0.String()
+		refSorted := c20sorted(ref)
+		var perms [][]gen.Variant
+		for r := 1; r < len(base); r++ { // rotations
+			perms = append(perms, append(append([]gen.Variant(nil), base[r:]...), base[:r]...))
+		}
+		rev := make([]gen.Variant, len(base)) // reversal
+		for i, v := range base {
+			rev[len(base)-1-i] = v
+		}
+		perms = append(perms, rev)
+		for i := 0; i+1 < len(base); i++ { // adjacent swaps
+			p := append([]gen.Variant(nil), base...)
+			p[i], p[i+1] = p[i+1], p[i]
+			perms = append(perms, p)
+		}
+		for _, p := range perms {
+			in := gen.Module(p)
+			m, e1, p1 := parseTry(in)
+			cs := c20case{Kind: "generated", Defs: []string{fw.Trunc(in, 1500)}}
+			if e1 != "" || p1 != "" {
+				cs.Got = e1 + p1
+				c.Violation("generated/permuted-input-rejected", cs)
+				continue
+			}
+			out := m.String()
+			if got := c20sorted(out); got != refSorted {
+				cs.Want, cs.Got = fw.Trunc(firstDiff(refSorted, got), 600), ""
+				c.Violation("generated/sorted-sections-depend-on-input-order", cs)
+			}
+			if want, got := c20order(in), c20order(out); want != got {
+				cs.Want, cs.Got = fw.Trunc(want, 800), fw.Trunc(got, 800)
+				c.Violation("generated/textual-order-not-kept", cs)
+			}
+			mu.Lock()
+			n++
+			mu.Unlock()
+			c.Case("gen|"+fmt.Sprint(bi, len(in), hashStr(in)), "")
+		}
+		c.Valid(int64(len(perms)))
+	})
+	c.Extra["generated_permutations"] = n
 }
 
 type c20def struct {
